@@ -133,10 +133,19 @@ def explore(ctx: Ctx):
     ctx.run_parallel("stack", cases, workers=10, group_key=lambda c: (json.dumps(c["spec"]), c["table"]["act_kind"], c["table"]["obs_kind"], c["table"]["S"]))
     ctx.traces = ctx.transitions
     g2l, gx, gc = adapter_cases(ctx, thorough, keys)
-    ctx.run("gym2lerax", g2l)
-    ctx.run("gymnax", gx)
-    ctx.run("gymcollect", gc)
-    ctx.require("gym2lerax-done", "gymnax-done", "gymcollect-episode-ends")
+    tk = lambda c: json.dumps(c["table"], sort_keys=True)
+    ctx.run_parallel("gym2lerax", g2l, workers=6, group_key=tk, threads=2)
+    ctx.run_parallel("gymnax", gx, workers=6, group_key=lambda c: (c["direction"], tk(c)), threads=2)
+    ctx.run_parallel("gymcollect", gc, workers=6, group_key=lambda c: (c["algo"], tk(c)), threads=2)
+    import itertools as _it
+
+    l2g = []
+    for spec in ([], [["TimeLimit", 2]], [["ClipReward", -2.0, 3.0], ["TimeLimit", 3]]):
+        for t in tables(2, 2, "discrete", "discrete", [0], True)[:: (1 if thorough else 3)]:
+            for seq in _it.product([0, 1], repeat=4):
+                l2g.append(dict(table=t, spec=spec, seed=int(keys[0]) % 1000 + 1, actions=list(seq)))
+    ctx.run_parallel("lerax2gym", l2g, workers=6, group_key=lambda c: (json.dumps(c["spec"]), tk(c)), threads=2)
+    ctx.require("gym2lerax-done", "gymnax-done", "gymcollect-episode-ends", "gymadapter-done")
     ctx.require("done", "trunc", "term", "reset-multi-init-varied")
 
 
@@ -363,7 +372,15 @@ def clause_gymcollect(cases, ctx: Ctx, pid="C13"):
     return out
 
 
-CLAUSES.update({"gym2lerax": clause_gym2lerax, "gymnax": clause_gymnax, "gymcollect": clause_gymcollect})
+def clause_lerax2gym(cases, ctx: Ctx):
+    """LeraxToGymEnv over tabular MDPs / stacks (same clause as C01's, reported under C13: the adapter reproduces the
+    trajectory of the environment it adapts)"""
+    from mc.props.c01 import clause_gymadapter
+
+    return [(i, s_.replace("C01/gymadapter/", "C13/adapter/lerax2gym/"), m) for (i, s_, m) in clause_gymadapter(cases, ctx)]
+
+
+CLAUSES.update({"gym2lerax": clause_gym2lerax, "gymnax": clause_gymnax, "gymcollect": clause_gymcollect, "lerax2gym": clause_lerax2gym})
 
 
 def adapter_cases(ctx: Ctx, thorough: bool, keys):
